@@ -96,6 +96,19 @@ CHECKS.update({
         technique="Lean 4 proof (model = specification) + differential comparison of generated plot scripts on real runs"),
 })
 
+CHECKS.update({
+    "C12": dict(
+        category="proof",
+        text="Partial. Lean 4 path algebra (clean, join, symlink resolution relative to the link's directory) with latest_resolves for every cwd and every -o shape (repaired code; decide-checked witness that the pinned code dangles for relative -o), survive_table derived from run()'s deferred actions over all flag and fault combinations, range_contains for assemble's normalisation. filepath.Clean/Join and the real prepareDirs are compared in-process; the flag x foul x -o x repeat matrix is run with the real binary (complete in the thorough tier) and the file tree, latest, result.js (Foul, time range, artifact tree) and plot scripts are checked against the model.",
+        note="Partial: file-system semantics trusted; the kernel's path walk modelled lexically (no symlinked directory on the way). Errors raised after assemble (upload, plot files) give exit 1 with Foul false: modelled (foul_flag_misses_late_errors), outside the property's flag quantifier.",
+        technique="Lean 4 proof (path algebra, decision table) + in-process and end-to-end matrix"),
+    "C13": dict(
+        category="proof",
+        text="Partial. Lean 4 model of prepareScript / prepareActionCommands / multi-actor expansion with script_layout (cd, then TMPDIR/HOME, then the redirection iff not a spotlight, then the `with` text, then the command), multi_actor_env, scripts_complete, extends_inherits, workdir_under_run for every cast. The real generated scripts are compared byte for byte with the model, and real plays record pwd/TMPDIR/HOME/i/`with` variables of every action, spotlight and cleanup, invoked directly and through another actor's prepared script; logs and signal rows checked.",
+        note="Partial: what bash does with the script is trusted. One known finding (an action named _cleanup/_spotlight shares the role's script file).",
+        technique="Lean 4 proof (list layout invariants) + byte-exact script comparison + ledger plays"),
+})
+
 NOT_APPLICABLE = [
     {"property_id": "C14", "reason": "data-race freedom is a property of memory accesses under the Go memory model; no executable Lean model compared on values can exhibit an unsynchronised access (DESIGN.md 5/C14)"},
 ]
